@@ -7,6 +7,6 @@ Set Extraction KeepSingleton.
 Extraction "apd_model.ml"
   cond_of_Z cond_to_Z
   corr_full oracle_c01 oracle_c02_arith oracle_c02_ext oracle_c07 judge_numdigits judge_dec_reduce oracle_ctx_reduce
-  oracle_c08 oracle_c09 oracle_c10 oracle_c15_ctx judge_cmp
+  oracle_c08 oracle_c08_fn corr_prologue oracle_c09 oracle_c10 oracle_c15_ctx judge_cmp
   judge_modes judge_mono oracle_c03 judge_ed judge_bigstep judge_int64 judge_set_finite judge_new_big judge_modf judge_format judge_format_extreme judge_parse judge_format_verb judge_compose judge_ctx_set_string oracle_sqrt oracle_cbrt
   run_model same_value.
